@@ -15,6 +15,9 @@ pub const COMMENTS: [&str; 6] = ["c", " note ", "", "a-b", "<x>", "\u{e9} \u{1F6
 pub const XML_NS: &str = "http://www.w3.org/XML/1998/namespace";
 pub const PI_TARGETS: [&str; 4] = ["pi", "target", "x-y", "\u{3c0}"];
 pub const PI_DATA: [&str; 4] = ["d", "a b", "x=\"1\"", "?"];
+/// data of the processing instructions of abstract documents: also data that ends in white space (which is
+/// part of the data — only the separator after the target is not)
+pub const PI_DATA_DOC: [&str; 8] = ["d", "a b", "x=\"1\"", "?", "a ", "a\t", "b  \n", "c ? >"];
 
 #[derive(Clone, Debug, PartialEq, Eq, Serialize, Deserialize)]
 pub enum AContent {
@@ -126,7 +129,7 @@ fn gen_misc(rng: &mut Rng) -> AContent {
     } else {
         AContent::PI(
             rng.pick(&PI_TARGETS).to_string(),
-            if rng.pct(60) { Some(rng.pick(&PI_DATA).to_string()) } else { None },
+            if rng.pct(60) { Some(rng.pick(&PI_DATA_DOC).to_string()) } else { None },
         )
     }
 }
